@@ -267,7 +267,7 @@ func TestE2Run(t *testing.T) {
 		if err != nil {
 			t.Fatalf("INFRA: %v", err)
 		}
-		rc := p.Wait(120 * time.Second)
+		rc := p.Wait(300 * time.Second)
 		if rc != 0 {
 			fail(t, "C01", "e2-run-failed", "mrp exited with %d\n%s\n%s", rc, stats.Trunc(p.Log(), 3000), c.describe())
 		}
@@ -411,10 +411,10 @@ func TestE2Interrupt(t *testing.T) {
 					p.Signal(9)
 				}
 			}
-			rc := p.Wait(60 * time.Second)
+			rc := p.Wait(150 * time.Second)
 			c.logf("run %d: SIG%s sent when %d job records existed (mrp %s); exit %d", c.Runs, sig, len(c.Ledger()), map[bool]string{true: "running", false: "already gone"}[running], rc)
 			if rc == -1 {
-				fail(t, "C05", "mrp-does-not-exit-on-signal", "mrp was still running 60 s after SIG%s\n%s\n%s", sig, stats.Trunc(p.Log(), 2000), c.describe())
+				fail(t, "C05", "mrp-does-not-exit-on-signal", "mrp was still running 150 s after SIG%s\n%s\n%s", sig, stats.Trunc(p.Log(), 2000), c.describe())
 			}
 			if running && rc != 0 {
 				classes = append(classes, "signal:"+sig)
@@ -446,7 +446,7 @@ func TestE2Interrupt(t *testing.T) {
 		if err != nil {
 			t.Fatalf("INFRA: %v", err)
 		}
-		if rc := p.Wait(120 * time.Second); rc != 0 {
+		if rc := p.Wait(300 * time.Second); rc != 0 {
 			fail(t, "C05", "restart-does-not-complete", "the restarted mrp exited with %d\n%s\n%s", rc, stats.Trunc(p.Log(), 3000), c.describe())
 		}
 		c.checkFinal(t, "C05")
@@ -498,7 +498,7 @@ func TestE2Faults(t *testing.T) {
 		if err != nil {
 			t.Fatalf("INFRA: %v", err)
 		}
-		if rc := p.Wait(120 * time.Second); rc != 0 {
+		if rc := p.Wait(300 * time.Second); rc != 0 {
 			fail(t, "C06", "run-failed-without-fault", "mrp exited with %d\n%s\n%s", rc, stats.Trunc(p.Log(), 3000), c.describe())
 		}
 		recs := c.Ledger()
@@ -529,7 +529,7 @@ func TestE2Faults(t *testing.T) {
 		if err != nil {
 			t.Fatalf("INFRA: %v", err)
 		}
-		rc := p.Wait(90 * time.Second)
+		rc := p.Wait(240 * time.Second)
 		log := p.Log()
 		c.logf("fault %s in %s (autoretry %d, once %v): mrp exit %d", kind, site.Identity, retry, once, rc)
 		attempts := 0
@@ -541,7 +541,7 @@ func TestE2Faults(t *testing.T) {
 		transient := kind == "signal"
 		classes := []string{"kind:" + kind, "phase:" + site.Phase, fmt.Sprintf("autoretry:%d", retry), "e2"}
 		if rc == -1 {
-			fail(t, "C06", "mrp-does-not-give-up", "90 s after the fault mrp is still running (%d attempts of the failing job)\n%s\n%s", attempts, stats.Trunc(log, 2500), c.describe())
+			fail(t, "C06", "mrp-does-not-give-up", "240 s after the fault mrp is still running (%d attempts of the failing job)\n%s\n%s", attempts, stats.Trunc(log, 2500), c.describe())
 		}
 		if retry > 0 && once && transient {
 			// the failure goes away on the second attempt: success
@@ -614,7 +614,7 @@ func TestE2Faults(t *testing.T) {
 			if err != nil {
 				t.Fatalf("INFRA: %v", err)
 			}
-			if rc := p.Wait(120 * time.Second); rc != 0 {
+			if rc := p.Wait(300 * time.Second); rc != 0 {
 				fail(t, "C06", "restart-does-not-complete", "with the fault removed mrp exits with %d\n%s\n%s", rc, stats.Trunc(p.Log(), 3000), c.describe())
 			}
 			c.checkFinal(t, "C06")
@@ -653,7 +653,7 @@ func TestE2Lock(t *testing.T) {
 		if err != nil {
 			t.Fatalf("INFRA: %v", err)
 		}
-		if rc := p0.Wait(120 * time.Second); rc != 0 {
+		if rc := p0.Wait(300 * time.Second); rc != 0 {
 			fail(t, "C15", "run-failed-without-fault", "mrp exited with %d\n%s", rc, stats.Trunc(p0.Log(), 2000))
 		}
 		ids := map[string]plan.Fault{}
@@ -690,7 +690,7 @@ func TestE2Lock(t *testing.T) {
 				p2.KillGroup()
 				p2.Wait(10 * time.Second)
 			} else {
-				rc := p2.Wait(30 * time.Second)
+				rc := p2.Wait(120 * time.Second)
 				c.logf("attach attempt %d (%s): exit %d", i+1, how, rc)
 				if rc == 0 || rc == -1 {
 					p2.KillGroup()
@@ -708,7 +708,7 @@ func TestE2Lock(t *testing.T) {
 			}
 		}
 		os.WriteFile(gate, []byte("go"), 0o644)
-		if rc := p1.Wait(120 * time.Second); rc != 0 {
+		if rc := p1.Wait(300 * time.Second); rc != 0 {
 			fail(t, "C15", "owner-fails-after-refused-attempts", "exit %d\n%s\n%s", rc, stats.Trunc(p1.Log(), 3000), c.describe())
 		}
 		c.checkFinal(t, "C15")
@@ -749,7 +749,7 @@ func TestE2Resources(t *testing.T) {
 		if err != nil {
 			t.Fatalf("INFRA: %v", err)
 		}
-		if rc := p.Wait(180 * time.Second); rc != 0 {
+		if rc := p.Wait(400 * time.Second); rc != 0 {
 			fail(t, "C12", "run-fails-under-limits", "--localcores=%d --localmem=%d: mrp exited with %d\n%s\n%s", cores, mem, rc, stats.Trunc(p.Log(), 3000), c.describe())
 		}
 		c.checkFinal(t, "C12")
@@ -981,7 +981,7 @@ func TestE2Files(t *testing.T) {
 		if err != nil {
 			t.Fatalf("INFRA: %v", err)
 		}
-		if rc := p.Wait(180 * time.Second); rc != 0 {
+		if rc := p.Wait(400 * time.Second); rc != 0 {
 			fail(t, "C01", "e2-run-failed", "vdr mode %s: mrp exited with %d\n%s\n%s", mode, rc, stats.Trunc(p.Log(), 3000), c.describe())
 		}
 		c.logf("vdr mode %s", mode)
@@ -1159,7 +1159,7 @@ func TestE2Cluster(t *testing.T) {
 		if err != nil {
 			t.Fatalf("INFRA: %v", err)
 		}
-		if rc := p.Wait(180 * time.Second); rc != 0 {
+		if rc := p.Wait(400 * time.Second); rc != 0 {
 			fail(t, "C12", "cluster-run-fails", "--maxjobs=%d: mrp exited with %d\n%s\n%s", maxJobs, rc, stats.Trunc(p.Log(), 3000), c.describe())
 		}
 		c.checkFinal(t, "C01")
